@@ -18,6 +18,19 @@ Proof.
   induction k as [|k IH]; intros [|l ls]; cbn [prefix_len]; try (specialize (IH ls)); lia.
 Qed.
 
+Lemma prefix_len_min : forall k lines, prefix_len (Nat.min k (length lines)) lines = prefix_len k lines.
+Proof.
+  induction k as [|k IH]; intros [|l ls]; cbn [Nat.min length prefix_len]; try reflexivity.
+  rewrite IH. reflexivity.
+Qed.
+
+Lemma prefix_len_loop : forall line lines, (0 <= line)%Z ->
+  prefix_len (loop_count line lines) lines = prefix_len (Z.to_nat line) lines.
+Proof.
+  intros line lines H. unfold loop_count.
+  rewrite Z2Nat.inj_min, Nat2Z.id. apply prefix_len_min.
+Qed.
+
 Theorem pos_to_off_val : forall lines line char,
   exists z, pos_to_off lines line char = Val z /\ (0 <= z)%Z.
 Proof.
@@ -25,7 +38,7 @@ Proof.
   destruct (Z.ltb_spec line 0) as [Hneg|Hnn].
   - exists 0%Z. split; [reflexivity|lia].
   - pose proof (prefix_len_nonneg (Z.to_nat line) lines) as Hp.
-    cbv zeta.
+    cbv zeta. rewrite (prefix_len_loop line lines Hnn).
     destruct (Z.leb_spec (Z.of_nat (length lines)) line) as [Hle|Hlt].
     + eexists. split; [reflexivity|].
       destruct (prefix_len (Z.to_nat line) lines >? 0)%Z eqn:E; lia.
@@ -263,7 +276,8 @@ Definition pto (lines : list (list N)) (k : nat) (char : Z) : outcome Z :=
 Lemma pos_to_off_nat : forall lines k char, pos_to_off lines (Z.of_nat k) char = pto lines k char.
 Proof.
   intros lines k char. unfold pos_to_off, pto. cbv zeta.
-  destruct (Z.ltb_spec (Z.of_nat k) 0) as [Hneg|_]; [lia|].
+  destruct (Z.ltb_spec (Z.of_nat k) 0) as [Hneg|Hk]; [lia|].
+  rewrite (prefix_len_loop _ lines Hk).
   rewrite Nat2Z.id.
   destruct (Z.leb_spec (Z.of_nat (length lines)) (Z.of_nat k)) as [H1|H1];
     destruct (Nat.leb_spec (length lines) k) as [H2|H2]; try lia; reflexivity.
